@@ -11,6 +11,33 @@ CHECKS = {
    technique="Lean 4 theorems over a hand-written model + exhaustive correspondence with the real functions",
    ref="DESIGN.md section 4, C04"),
 }
+CHECKS.update({
+ "C10": dict(
+   text="Proof: type soundness of the RzIL sort checker (sortOf_sound: progress+preservation for every pure incl. macros; wfEffect_sound: a checker-accepted effect never hits a sort error, for every fuel, all BRANCH arms and loop iterations, incl. sub-routine calls) in Lean. The verified checker is run by Lean on the RAW emitted text of every accepted corpus part and sub-routine in both layouts (thorough: all 2181 definitions; quick: stratified sample) and of generated programs (clean stream must be perfect; wild stream failures must match a listed known finding by triggering construct and signature).",
+   note=TB + "Lean tokenizer/parser of emitted C (Model/CText.lean) and Term->IL reading; sort rules as enumerated in the property; operand widths by operand-variable name; macro sorts regenerated from qemu_rzil_macros.json. The lowering itself is not modelled here: the property is decided per output.",
+   technique="Lean 4 soundness theorem for a sort checker + the checker run in Lean on real compiler output",
+   ref="DESIGN.md section 4, C10"),
+ "C11": dict(
+   text="Proof: the Lean parser of the emitted C text is a left inverse of a token-level printer for terms, argument lists and items (parseTerm_toToks, parseItems_toToks, all terms, unbounded depth), getter-name and add_op-name injectivity facts. Per output: Lean parses the RAW text of every accepted behaviour/sub-routine (both layouts) and checks declarations-with-initialiser + final return, declared once and before use, known callees, balanced parentheses, valid names; companion record (needs_hi/needs_pkt vs Lean's token-level mention test, getter names unique) checked on the corpus.",
+   note=TB + "the character-level tokenizer is trusted (exercised on the whole corpus); 'valid C' means the declaration-list subset (no C compiler/rz-hexagon headers available).",
+   technique="Lean 4 parser/printer inverse theorem + Lean well-formedness checker on real output",
+   ref="DESIGN.md section 4, C11"),
+ "C12": dict(
+   text="Proof: read-counter protocol (for ANY number of reads exactly one raw use, the rest DUP) and checker examples in Lean. Per output: Lean's `linearProblems` on the RAW text of every accepted behaviour/sub-routine in both layouts: every RzILOpPure* variable one consuming use + DUPs, every RzILOpEffect* exactly one use, borrowed parameters at most one raw use, nothing unused. Partial: the tie of the protocol lemmas to the Python classes is through the per-output check, not a model of il_read.",
+   note=TB + "ownership reading of the emitted C: a variable holds one node, a raw use moves it, DUP clones.",
+   technique="Lean 4 protocol lemmas + Lean linearity checker on real output",
+   ref="DESIGN.md section 4, C12"),
+ "C16": dict(
+   text="Proof: equal denoted terms give identical execution from EVERY state, fuel, macro interpretation and sub-routine environment (denote_eq_exec), environment composition lemmas. Per behaviour: Lean computes `denoteIL` (declarations inlined, DUP erased, h_tmpN renamed) of the READ_STATEMENTS and EXEC_CLASSES texts produced by two real compilers from the same tree and compares terms and attribute lists (corpus: all parts in thorough; generated programs).",
+   note=TB + "READ_REG is read as a pure term with run-time meaning (DESIGN 3.2); declaration order is deliberately forgotten by denote.",
+   technique="Lean 4 theorem (equal denotation => equal behaviour) + Lean denotation of both real outputs",
+   ref="DESIGN.md section 4, C16"),
+ "C18": dict(
+   text="Proof: for EVERY completion order (permutation of task indices = every pool size/schedule) the imap-collected pool result equals the sequential fold (pool_eq_seq_imap), completion order is irrelevant for distinct names (pool_eq_seq_unordered), one entry per name, all parts kept on success, first failure empties the trees and records the error name, entry i depends only on task i (failure_isolated). Tie: the real Parser.parse run on random corpus subsets with injected broken behaviours under pool sizes 1..16 and seeded per-task delays, compared with the Lean model instantiated with the sequential in-process outcome table. Partial: real OS interleavings are sampled; worker crashes are not modelled.",
+   note=TB + "model Model/Pool.lean (pool = arbitrary completion order + imap collector; dict.update on insertion-ordered dicts); delay/pool-size injection by monkeypatching in the harness process.",
+   technique="Lean 4 theorems over all schedules of a pool model + correspondence with the real Parser.parse",
+   ref="DESIGN.md section 4, C18"),
+})
 NOT_YET = {}
 ALL = [f"C{i:02d}" for i in range(1, 21)]
 def main():
@@ -31,7 +58,7 @@ def main():
           for p in ALL if p not in CHECKS]
     m = {
         "version": 1,
-        "setup_cmd": "cd lean && lake build",
+        "setup_cmd": "./setup.sh",
         "hooks": {
             "guard": "RZIL_COMPILER_VERIF",
             "enable": "no hooks in /repo: the harness drives the real code in-process (monkeypatching in the harness process only)",
